@@ -279,6 +279,7 @@ Check(e) ==
       [] e.op = "rflags_rt" ->     \* the ID flag (bit 21) written is the ID flag read back
             /\ Bit(e.r[2], 21) # Bit(e.r[1], 21) /\ Bit(e.r[3], 21) = Bit(e.r[1], 21)
       [] e.op = "mxcsr_rt" -> e.got = e.v /\ e.ind = e.v
+      [] e.op = "dr7_rt" -> e.got = e.want /\ e.got_flags = e.flags     \* DR7 fields written are read back
       [] e.op = "mxcsr_upd" -> e.got = e.v /\ e.seen = e.saved
       [] e.op = "port_eq" -> PortEqOK(e)
       [] e.op = "port_multi" -> PortMultiOK(e)
